@@ -429,6 +429,16 @@ pub struct CheckOpts {
     pub write_evidence: bool,
 }
 
+pub struct Batch {
+    pub cov: Coverage,
+    pub runs_done: u64,
+    pub foreign: u64,
+    pub foreign_samples: Vec<String>,
+    pub harness_errors: Vec<String>,
+    pub violations: Vec<(Violation, Trace)>,
+    pub sigs: HashSet<u64>,
+}
+
 pub fn check_main(prop_id: &str, opts: &CheckOpts) -> i32 {
     let Some(prop) = props::by_id(prop_id) else {
         eprintln!("memsim: unknown property {}", prop_id);
@@ -436,6 +446,12 @@ pub fn check_main(prop_id: &str, opts: &CheckOpts) -> i32 {
     };
     silence_stdout();
     exec::install_panic_hook();
+    let t0 = Instant::now();
+    let b = run_batch(prop.as_ref(), prop_id, opts);
+    report_batch(prop.as_ref(), prop_id, opts, b, t0)
+}
+
+pub fn run_batch(prop: &dyn Property, prop_id: &str, opts: &CheckOpts) -> Batch {
     let t0 = Instant::now();
     let total = opts.runs.or_else(|| env_u64("VERIF_RUNS")).unwrap_or_else(|| prop.runs(opts.tier));
     let budget_s = opts
@@ -553,7 +569,11 @@ pub fn check_main(prop_id: &str, opts: &CheckOpts) -> i32 {
         }
         let _ = std::fs::remove_file(f);
     }
+    Batch { cov, runs_done, foreign, foreign_samples, harness_errors, violations, sigs }
+}
 
+fn report_batch(prop: &dyn Property, prop_id: &str, opts: &CheckOpts, b: Batch, t0: Instant) -> i32 {
+    let Batch { cov, runs_done, foreign, foreign_samples, mut harness_errors, mut violations, sigs } = b;
     // report
     let known = load_known();
     let mut exit = 0;
@@ -582,7 +602,7 @@ pub fn check_main(prop_id: &str, opts: &CheckOpts) -> i32 {
         if reported >= 5 {
             continue;
         }
-        match report_violation(prop.as_ref(), v, trace, opts.seed) {
+        match report_violation(prop, v, trace, opts.seed) {
             Ok((path, v2)) => {
                 out(&format!("VIOLATION property={} replay={}", prop_id, path.display()));
                 out(&format!("  class={} detail={}", v2.class, v2.detail));
@@ -607,7 +627,7 @@ pub fn check_main(prop_id: &str, opts: &CheckOpts) -> i32 {
     let wall = t0.elapsed().as_secs_f64();
     if opts.write_evidence {
         write_evidence(
-            prop.as_ref(),
+            prop,
             opts,
             &cov,
             runs_done,
